@@ -3,7 +3,7 @@ from __future__ import annotations
 import ast, copy, time
 import z3
 from .values import *
-from .symexec import Engine, Unsupported, NeedFork, Raised, Obligation, Path, Contract, parse_expr
+from .symexec import Engine, Unsupported, NeedFork, Raised, Obligation, Path, Contract, parse_expr, on_raise_clauses
 from .exprs import ExprMixin, MUTATING_METHODS
 from .calls import CallMixin
 
@@ -128,7 +128,7 @@ class Verifier(ExprMixin, CallMixin, Engine):
                 if tgt.items is not None:
                     new = VList(items=tgt.items + [args[0]])
                 else:
-                    new = VList(t=z3.Concat(tgt.t, z3.Unit(self.elem_term(args[0], tgt.elem, p))), elem=tgt.elem)
+                    new = VList(t=z3.Concat(tgt.t, z3.Unit(self.elem_term(args[0], tgt.elem, p))), elem=tgt.elem, elem_cls=tgt.elem_cls)
             elif name == "pop":
                 if tgt.items is None:
                     raise Unsupported("pop on symbolic list")
@@ -449,6 +449,99 @@ class Verifier(ExprMixin, CallMixin, Engine):
                     out.add(n.id)
         return out
 
+    def loop_write_set(self, nodes, p, module):
+        """Sound over-approximation of what a loop body can modify: local names, (object name, field) pairs, and objects
+        that must be havocked entirely (passed to / receiving calls whose effect is not described by a contract)."""
+        names, fields, full = set(), set(), set()
+
+        def obj_of(name):
+            v = p.env.get(name)
+            if isinstance(v, VOpt):
+                v = v.val
+            return v if isinstance(v, VObj) else None
+
+        def target(t_):
+            if isinstance(t_, ast.Name):
+                names.add(t_.id)
+            elif isinstance(t_, (ast.Tuple, ast.List)):
+                for e in t_.elts:
+                    target(e)
+            elif isinstance(t_, ast.Attribute):
+                if isinstance(t_.value, ast.Name):
+                    fields.add((t_.value.id, t_.attr))
+                else:
+                    for n in ast.walk(t_.value):
+                        if isinstance(n, ast.Name) and obj_of(n.id) is not None:
+                            full.add(n.id)
+            elif isinstance(t_, ast.Subscript):
+                target(t_.value)
+            elif isinstance(t_, ast.Starred):
+                target(t_.value)
+
+        def conservative(call):
+            for n in ast.walk(call):
+                if isinstance(n, ast.Name) and obj_of(n.id) is not None:
+                    full.add(n.id)
+
+        for st in nodes:
+            for node in ast.walk(st):
+                if isinstance(node, ast.Assign):
+                    for t_ in node.targets:
+                        target(t_)
+                elif isinstance(node, (ast.AugAssign, ast.AnnAssign)):
+                    target(node.target)
+                elif isinstance(node, (ast.For,)):
+                    target(node.target)
+                elif isinstance(node, ast.ExceptHandler) and node.name:
+                    names.add(node.name)
+                elif isinstance(node, ast.withitem) and node.optional_vars is not None:
+                    target(node.optional_vars)
+                elif isinstance(node, ast.Call):
+                    f = node.func
+                    if isinstance(f, ast.Attribute) and f.attr in MUTATING_METHODS:
+                        target(f.value)
+                        continue
+                    fi, recv_name, c = None, None, None
+                    if isinstance(f, ast.Attribute) and isinstance(f.value, ast.Name) and obj_of(f.value.id) is not None:
+                        o = obj_of(f.value.id)
+                        fi = self.prog.find_method(o.cls, f.attr)
+                        recv_name = f.value.id
+                        if fi is not None:
+                            c = self.contract_for(fi, o)
+                    elif isinstance(f, ast.Name) and f.id not in p.env:
+                        r = self.prog.resolve(module, f.id)
+                        if r is not None and r[0] == "func":
+                            fi = r[1]
+                            c = self.contracts.get(fi.key)
+                        elif r is None or r[0] in ("class", "extern", "module") or f.id in ("len", "bytes", "bytearray", "isinstance", "bool", "int", "chr", "type", "memoryview", "str", "repr", "next"):
+                            if r is not None and r[0] == "class" and r[1].kind == "plain":
+                                conservative(node)       # __init__ of a plain class runs inlined
+                            continue
+                    if fi is None or c is None or c.inline:
+                        conservative(node)
+                        continue
+                    pnames = [pn for pn, _, _ in fi.params()]
+                    actual = {}
+                    args = list(node.args)
+                    if recv_name is not None and pnames:
+                        actual[pnames[0]] = ast.Name(id=recv_name, ctx=ast.Load())
+                        pn_rest = pnames[1:]
+                    else:
+                        pn_rest = pnames
+                    for pn, a in zip(pn_rest, args):
+                        actual[pn] = a
+                    for kw in node.keywords:
+                        if kw.arg:
+                            actual[kw.arg] = kw.value
+                    for m in c.modifies:
+                        parts = m.split(".")
+                        a = actual.get(parts[0])
+                        if isinstance(a, ast.Name) and len(parts) == 2:
+                            fields.add((a.id, parts[1]))
+                        elif a is not None:
+                            conservative(a)
+        return names, fields, full
+
     def always_exits(self, body):
         """True when every path through `body` leaves the loop (break / return / raise): the loop runs at most once."""
         if not body:
@@ -498,7 +591,7 @@ class Verifier(ExprMixin, CallMixin, Engine):
             return z3.Length(t), (lambda i: VInt(t[i]))
         if isinstance(seq, VList) and seq.t is not None:
             t = seq.t
-            return z3.Length(t), (lambda i: self.wrap_elem(t[i], seq.elem))
+            return z3.Length(t), (lambda i: self.wrap_elem(t[i], seq.elem, seq.elem_cls))
         if isinstance(seq, (VList, VTuple)) and seq.items is not None:
             return ("concrete", list(seq.items))
         raise Unsupported(f"iteration over {seq!r}")
@@ -576,19 +669,32 @@ class Verifier(ExprMixin, CallMixin, Engine):
             p.obls.append(Obligation(f"{lname}/establish[{i}]", p.pc, goal, "loop-establish", st.lineno, self.cur_name, {"clause": inv}))
         # ---- havoc
         h = p.fork(); h.script = []; h.pos = 0
-        targets = self.assigned_names(st.body) | set(spec.get("modifies_names", []))
+        wnames, wfields, wfull = self.loop_write_set(st.body + ([ast.Expr(value=st.test)] if not is_for else []), h, module)
+        targets = wnames | set(spec.get("modifies_names", []))
         if is_for:
             for n in ast.walk(st.target):
                 if isinstance(n, ast.Name):
                     targets.add(n.id)
         for name in sorted(targets):
-            if name in h.env and not isinstance(h.env[name], VObj):
+            if name in h.env and not isinstance(h.env[name], VObj) and not (isinstance(h.env[name], VOpt) and isinstance(h.env[name].val, VObj)):
                 h.env[name] = self.havoc_like(h.env[name], h, name)
-        mentioned = self.mentioned_names(st.body + ([st.test] if not is_for else []))
+            elif name in h.env:
+                # an object-valued local that is re-bound in the loop: the engine keeps concrete references, so treat the
+                # re-binding as an arbitrary change of the object it currently denotes
+                wfull.add(name)
         seen = set()
-        for name in sorted(mentioned):
-            v = h.env.get(name)
-            self.havoc_object(v, h, seen, name)
+        for name in sorted(wfull):
+            self.havoc_object(h.env.get(name), h, seen, name)
+        for oname, fld in sorted(wfields):
+            o = h.env.get(oname)
+            if isinstance(o, VOpt):
+                o = o.val
+            if isinstance(o, VObj) and id(o) not in seen and fld in o.fields:
+                cur = o.fields[fld]
+                if isinstance(cur, VObj) or (isinstance(cur, VOpt) and isinstance(cur.val, VObj)):
+                    self.havoc_object(cur, h, seen, f"{oname}.{fld}")
+                else:
+                    o.fields[fld] = self.havoc_like(cur, h, f"{oname}.{fld}")
         for g in spec.get("ghost_update", {}):
             h.ghost[g] = self.havoc_like(h.ghost[g], h, g)
         if is_for:
@@ -862,7 +968,7 @@ class Verifier(ExprMixin, CallMixin, Engine):
             env = dict(p.env)
             env["exc"] = val
             q = self.spec_path(p, env, old=p.old)
-            for i, cl in enumerate(c.on_raise):
+            for i, cl in enumerate(on_raise_clauses(c, cls, self.prog)):
                 goal = self.eval_clause(cl, q, fi.module)
                 p.obls.append(Obligation(f"{name}/on_raise[{i}]", p.pc, goal, "on-raise", ln, name, {"clause": cl, "exc": cls, "variant": vi}))
             self.check_frame(fi, c, p, name, exceptional=True)
